@@ -871,7 +871,10 @@ func (s *Server) processPublish(cl *Client, pk packets.Packet) error {
 	}
 
 	if pk.FixedHeader.Qos > 0 && atomic.LoadInt32(&cl.State.Inflight.receiveQuota) == 0 {
-		return s.DisconnectClient(cl, packets.ErrReceiveMaximum) // ~[MQTT-3.3.4-7] ~[MQTT-3.3.4-8] QoS 0 publishes never count
+		// a retransmission of a QoS 2 exchange that is already in progress takes no additional quota
+		if pki, ok := cl.State.Inflight.Get(pk.PacketID); !ok || pki.FixedHeader.Type != packets.Pubrec {
+			return s.DisconnectClient(cl, packets.ErrReceiveMaximum) // ~[MQTT-3.3.4-7] ~[MQTT-3.3.4-8] QoS 0 publishes never count
+		}
 	}
 
 	if !cl.Net.Inline && !s.hooks.OnACLCheck(cl, pk.TopicName, true) {
